@@ -167,7 +167,7 @@ def static_stop_propagation(bm: BrokerModel):
     pops = bm.summarize("pop", g)
     waits = [s for s in pops if s.kind == "wait"]
     if waits:
-        res = bm.summarize("pop", g, entry_bb=waits[0].resume, resume=True)
+        res = bm.summarize_resume(waits[0], g)
         for i, sm in enumerate(res):
             if sm.kind != "return":
                 continue
